@@ -96,6 +96,29 @@ def cases(tier):
         cs.append(fixed(F.join3(c1, c2), ([1], [0.5, 2], [3, 1]), 150))
     cs.append(fixed(F.viaP([], []), ([1, 2], [3, 1, 1]), 200))
     cs.append(fixed(F.viaPP([], [], []), ([0.75], [2, 1]), 150))
+    # the same small systems at other time scales: one unit = 100 microseconds / one week
+    for unit in (100, 7 * 86400 * 10**6):
+        for ch in ([], [F.TOK["L"]], [F.TOK["F1"]], [F.TOK["A"]], [["F", 0.5], ["F", 1.5]]):
+            cs.append(dict(F.pair(ch, end=5), unit_us=unit))
+            cs.append(dict(F.pair(ch, end=5, order=("B", "A"), starts=(0, 1)), unit_us=unit))
+        cs.append(dict(F.line3([], [F.TOK["F1"]], end=4), unit_us=unit))
+        cs.append(dict(F.ring(2, {1: [["F", 4]]}, menu=(1, 2), end=5), unit_us=unit))
+    # three adapters on a link: delay >> pass-through >> push-based (and the harmless orders)
+    for ch in ([F.TOK["F1"], F.TOK["S"], F.TOK["L"]], [F.TOK["U"], F.TOK["S"], F.TOK["L"]], [F.TOK["Fh"], F.TOK["S"], F.TOK["A"]], [F.TOK["P1"], F.TOK["S"], F.TOK["N"]],
+               [F.TOK["L"], F.TOK["S"], F.TOK["F1"]], [F.TOK["S"], F.TOK["F1"], F.TOK["L"]], [F.TOK["F1"], F.TOK["S"], F.TOK["S"], F.TOK["L"]]):
+        cs.append(F.pair(ch, end=5))
+        cs.append(F.pair(ch, end=5, order=("B", "A")))
+    # a diamond of pull-based components (five components), the delayed input of the consumer first or second
+    for d in ([["F", 1]], [["F", 2.5]], [["P", 1, 0]]):
+        for order in (("A", "H", "P", "Q", "B"), ("B", "Q", "P", "H", "A")):
+            cs.append(F.diamondPP(d, [], end=4, order=order))
+            cs.append(F.diamondPP([], [], end=4, order=order))
+    # a very fine producer under a coarse consumer: thousands of publications between two pulls
+    for ch in (([F.TOK["L"]], [F.TOK["A"]]) if "c02" == "c01" else ([F.TOK["N"]],)):
+        c = F.pair(ch)
+        c["comps"][0]["fixed"], c["comps"][1]["fixed"] = [1 / 64], [26, 21.5]
+        c["end"], c["update_cap"] = 30, 20000
+        cs.append(c)
     # components that start at different times (three components)
     for starts in ((1, 0, 0), (0, 1, 0), (0, 0, 2), (2, 1, 0)):
         for c1, c2 in (([], []), ([F.TOK["L"]], [F.TOK["F1"]]), ([F.TOK["F1"]], [F.TOK["L"]]), ([F.TOK["A"]], [])):
